@@ -53,6 +53,18 @@ func (h *encHarness) wrapper(k int) wrapping.Wrapper {
 	return w
 }
 
+// plainM: the plaintext of value number m: mostly "m<m>", sometimes the empty string, sometimes bytes
+// that are not UTF-8 (C16: all byte strings incl. empty and non-UTF8)
+func plainM(m int) string {
+	switch m % 13 {
+	case 5:
+		return ""
+	case 9:
+		return fmt.Sprintf("m%d\xff\xfe\x00\x80", m)
+	}
+	return fmt.Sprintf("m%d", m)
+}
+
 func optBytes(s string, prefix string) []byte {
 	if s == "N" {
 		return nil
@@ -343,7 +355,7 @@ func encryptMain(args []string) {
 					fieldToks = append(fieldToks, "E:o:0:N") // the Info pointer field: no string leaf the filter touches (unexported fields inside)
 					for fi := 0; fi < 6; fi++ {
 						mCounter++
-						plain := fmt.Sprintf("m%d", mCounter)
+						plain := plainM(mCounter)
 						m := mCounter
 						if vals[fi] != nil {
 							*vals[fi] = plain
@@ -376,7 +388,7 @@ func encryptMain(args []string) {
 						inner := func(path ...string) *ewiInner {
 							mCounter += 2
 							paths = append(paths, path)
-							in := &ewiInner{V: fmt.Sprintf("m%d", mCounter-1), H: fmt.Sprintf("m%d", mCounter)}
+							in := &ewiInner{V: plainM(mCounter-1), H: plainM(mCounter)}
 							for fi, pl := range []struct {
 								plain string
 								m     int
@@ -437,7 +449,7 @@ func encryptMain(args []string) {
 							tagTok = hx([]byte(tag))
 						}
 						mCounter++
-						plain := fmt.Sprintf("m%d", mCounter)
+						plain := plainM(mCounter)
 						switch k := p.intn(11); {
 						case k >= 8: // []string / [][]byte fields, possibly with nil elements and a nil tail
 							isB := k >= 9
@@ -456,7 +468,11 @@ func encryptMain(args []string) {
 									continue
 								}
 								mCounter++
-								v.plains = append(v.plains, fmt.Sprintf("m%d", mCounter))
+								pl := plainM(mCounter)
+								if pl == "" {
+									pl = fmt.Sprintf("m%d", mCounter) // "" stands for a nil element in this harness
+								}
+								v.plains = append(v.plains, pl)
 								v.ms = append(v.ms, mCounter)
 								mt = append(mt, fmt.Sprint(mCounter))
 							}
@@ -632,7 +648,7 @@ func encryptMain(args []string) {
 						}
 						v, ok := l.get(ov)
 						if !ok {
-							if l.plain == "" {
+							if l.m == 0 { // not a string / []byte field
 								ls = append(ls, "o")
 							} else {
 								ls = append(ls, "nil")
